@@ -140,3 +140,7 @@ def karatsuba_small(src):
               "pub const KARATSUBA_MIN_STARTING_LIMBS: usize = 2;")
     sub_exact(src, "uint/mul/karatsuba.rs", "pub const KARATSUBA_MAX_REDUCE_LIMBS: usize = 24;",
               "pub const KARATSUBA_MAX_REDUCE_LIMBS: usize = 1;")
+    # the radix encoder switches to "divide by the largest power of the radix that fits LARGE limbs and
+    # recurse" above this many limbs: lowered so that the recursion runs at 3..5 limbs
+    sub_exact(src, "uint/encoding.rs", "const RADIX_ENCODING_LIMBS_LARGE: usize = 32;",
+              "const RADIX_ENCODING_LIMBS_LARGE: usize = 2;")
